@@ -145,6 +145,15 @@ def gen_inverse_case(rnd):
         m = rnd.randint(0, 11)
         kind = ['random', 'same-parallel', 'same-meridian', 'equatorial', 'polar', 'straddle-180', 'short', 'pole-crossing',
                 'long', 'coincident', 'very-short', 'near-meridional'][m]
+        if m == 0 and rnd.random() < 0.3:
+            # structured pairs: mirror latitudes, longitudes exactly 90 / 180 apart, both on one cardinal meridian
+            kind = 'structured'
+            la2 = rnd.choice([-la1, la1, rnd.uniform(-90, 90)])
+            lo2 = wrap180(lo1 + rnd.choice([180.0, 90.0, -90.0, 180.0 - 1e-9, 1e-9]))
+            lo1 = rnd.choice([lo1, 0.0, 90.0, -90.0, 180.0, -180.0])
+            if geod.sphsep(la1, lo1, la2, lo2) <= 178.0:
+                return {'ell': ell, 'lat1': la1, 'lon1': lo1, 'lat2': max(-90.0, min(90.0, la2)), 'lon2': lo2, 'kind': kind,
+                        'shift': rnd.choice([360.0, -360.0, round(rnd.uniform(-360, 360), 6), 0.5])}
         if m == 0:
             la2 = rnd.uniform(-90, 90)
             lo2 = rnd.uniform(-180, 180)
